@@ -432,6 +432,13 @@ func (c *Ctx) Finish(verifDir string, meta Meta, extra map[string]interface{}) i
 	for k, v := range extra {
 		cov[k] = v
 	}
+	if meta.Assumptions == nil {
+		meta.Assumptions = []string{}
+	}
+	if meta.Trusted == nil {
+		meta.Trusted = []string{}
+		cov["trusted_base"] = meta.Trusted
+	}
 	ev := Evidence{PropertyID: c.Prop, Tier: c.Tier, Seed: seedFromEnv(), Level: "other", Coverage: cov,
 		Assumptions: meta.Assumptions, WallS: time.Since(c.start).Seconds(), Violations: nViol}
 	eb, _ := json.MarshalIndent(ev, "", " ")
